@@ -187,6 +187,8 @@ def glue_events(names: int, prefixes: int, datatypes: int, npfx: int, nnames: in
             evs.append(("iri", p + nm[j]))
     for j in range(2, len(nm)):
         evs.append(("iri", pf[0] + nm[j]))
+    for p in pf[:2] + pf[-1:]:
+        evs.append(("ns", p + nm[0]))  # the IRI of a namespace declaration shares the cursors
     if datatypes:
         for i in range(datatypes + 2):  # two more than the table: consecutive evictions
             evs.append(("lit", f"http://p0/n{i}"))
@@ -216,6 +218,16 @@ def step2(st: Glue, ev) -> list[str]:
             got = st.dec.decode_iri(msg)
             if got._iri != ev[1]:
                 fails.append(f"IRI {ev[1]!r} decodes to {got._iri!r}")
+        elif ev[0] == "ns":
+            from pyjelly.serialize.encode import encode_namespace_declaration  # noqa: PLC0415
+
+            rows = encode_namespace_declaration("p", ev[1], st.enc)
+            for r in rows[:-1]:
+                st.dec.decode_row(getattr(r, r.WhichOneof("row")))
+            got = st.dec.decode_namespace_declaration(rows[-1].namespace)
+            iri = got.iri._iri if hasattr(got.iri, "_iri") else str(got.iri)
+            if iri != ev[1] or got.prefix != "p":
+                fails.append(f"namespace declaration of {ev[1]!r} decodes to {iri!r}")
         else:
             msg = jelly.RdfLiteral()
             rows = st.enc.encode_literal(lex="x", datatype=ev[1], literal=msg)
